@@ -39,6 +39,10 @@ enum YCol {
     Custom(Vec<f64>),
     /// the noisy column scaled by 1e-3 (coefficients and W D_k C of order 1e-3)
     Small,
+    /// the noisy column times 1e-24 (f32) / 1e-160 (f64): finite normal numbers, far below the other columns
+    ScaleTiny,
+    /// the off-model column times 1e22 (f32) / 1e170 (f64)
+    ScaleHuge,
 }
 
 #[derive(Debug, Clone, Copy, PartialEq)]
@@ -65,12 +69,14 @@ struct Scen {
     depth: usize,
     /// sample locations shifted by this amount (x > 0 makes exp(-x/tau) distinguish tau = +0.0 from tau = -0.0)
     xshift: f64,
+    /// sample locations multiplied by this factor (the alphabet of decay constants is scaled alike by the scenario generator)
+    xscale: f64,
 }
 
 fn scen_desc(s: &Scen) -> Value {
     json!({"family": s.fam.name(), "n": s.n, "prov": s.prov.name(), "scalar": if s.f32_ {"f32"} else {"f64"}, "par": s.par, "api": s.api.name(),
            "ycols": s.ycols.iter().map(|c| match c { YCol::Custom(_) => "Custom".to_string(), o => format!("{:?}", o) }).collect::<Vec<_>>(),
-           "w": format!("{:?}", s.w), "eps": format!("{:?}", s.eps), "alphas": s.alphas, "domain": s.domain.map(|d| format!("{:?}", d)), "depth": s.depth})
+           "w": format!("{:?}", s.w), "eps": format!("{:?}", s.eps), "alphas": s.alphas, "domain": s.domain.map(|d| format!("{:?}", d)), "depth": s.depth, "xscale": s.xscale})
 }
 
 fn alphabet(fam: &Family, big: bool) -> Vec<Vec<f64>> {
@@ -85,6 +91,7 @@ fn alphabet(fam: &Family, big: bool) -> Vec<Vec<f64>> {
             base.iter().map(|a| a[..*p].to_vec()).collect()
         }
         Family::PolyMat(s) => [1.0, 1e4, 1e-4, 3.0].iter().map(|a| vec![*a; s.p]).collect(),
+        Family::Perm4 => vec![vec![0.6, 1.8, 0.4, 0.25], vec![0.5, 2.0, 0.3, 0.2], vec![1.0, 1.0, 1.0, 1.0], vec![0.2, 3.0, -0.5, 0.6], vec![0.5, 0.3, 2.0, 0.2], vec![1.5, 0.7, 0.1, 0.05]],
         Family::ExpN(n) => (0..4).map(|v| (0..*n).map(|j| 0.4 * 2.0f64.powi(j as i32) * (1.0 + 0.1 * v as f64)).collect()).collect(),
     };
     if big {
@@ -121,6 +128,13 @@ fn ycolumn(spec: &ModelSpec, gen_alpha: &[f64], c: &YCol) -> DVector<f64> {
         YCol::Zero => DVector::zeros(n),
         YCol::OnPlusOff => on() + off(),
         YCol::Custom(v) => DVector::from_vec(v.clone()),
+        YCol::ScaleTiny => {
+            let y = on();
+            let mx = y.amax().max(1e-300);
+            let nz = noise(n, 2, 9);
+            DVector::from_fn(n, |i, _| y[i] + 0.02 * mx * nz[i])
+        }
+        YCol::ScaleHuge => off(),
         YCol::Small => {
             let y = on();
             let mx = y.amax().max(1e-300);
@@ -135,11 +149,25 @@ impl<T: Sc> Env<T> {
         let mut spec = spec_for(&sc.fam, sc.n);
         for v in spec.x.iter_mut() {
             *v += sc.xshift;
+            *v *= sc.xscale;
         }
         let gen_alpha = &sc.alphas[1.min(sc.alphas.len() - 1)];
         let mut y = DMatrix::<f64>::zeros(sc.n, sc.ycols.len());
         for (s, c) in sc.ycols.iter().enumerate() {
             y.set_column(s, &ycolumn(&spec, gen_alpha, c));
+        }
+        for (s, c) in sc.ycols.iter().enumerate() {
+            let f32_ = T::EPS > 1e-10;
+            let factor = match c {
+                YCol::ScaleTiny => if f32_ { 1e-24 } else { 1e-160 },
+                YCol::ScaleHuge => if f32_ { 1e22 } else { 1e170 },
+                _ => 1.0,
+            };
+            if factor != 1.0 {
+                for i in 0..sc.n {
+                    y[(i, s)] *= factor;
+                }
+            }
         }
         // the observation alphabet is rounded to T first, so sums of columns are taken of the T values
         let mut yt: DMatrix<T> = mat_t(&y);
@@ -535,7 +563,10 @@ impl<'a, T: Sc> Explorer<'a, T> {
         }
         let a = self.alphas_t[ai].clone();
         for k in 0..a.len() {
-            let h = 1e-5 * a[k].d().abs().max(1.0);
+            // step relative to the parameter, with the scale of this parameter in the scenario's alphabet as the floor
+            // (an absolute floor would be meaningless for decay constants of order 1e-17)
+            let scale_k = self.sc.alphas.iter().map(|al| al[k].abs()).fold(0.0f64, f64::max);
+            let h = 1e-5 * a[k].d().abs().max(if scale_k > 0.0 { scale_k.min(1.0) } else { 1.0 });
             let mut obj = [0.0f64; 2];
             for (t, sgn) in [(0usize, 1.0), (1, -1.0)] {
                 let mut ap = a.clone();
@@ -658,17 +689,21 @@ impl<'a, T: Sc> Explorer<'a, T> {
                         }
                     }
                     Role::SingleCol(col) | Role::SingleColOther(col) => {
+                        // scales of THIS column only: the columns are independent problems, however different their magnitudes
                         let m = sc_.nrows();
+                        let cs = (0..m).map(|j| sc_[(j, *col)].abs().max(tc[(j, 0)].abs())).fold(0.0f64, f64::max);
+                        let rs = (0..n).map(|i| sr[col * n + i].abs().max(tr[i].abs())).fold(0.0f64, f64::max).max(cs * 1e-3);
                         for j in 0..m {
-                            cmp("coefficient", sc_[(j, *col)], tc[(j, 0)], cscale);
+                            cmp("coefficient", sc_[(j, *col)], tc[(j, 0)], cs);
                         }
                         for i in 0..n {
-                            cmp("residual block", sr[col * n + i], tr[i], rscale);
+                            cmp("residual block", sr[col * n + i], tr[i], rs);
                         }
                         if let (Some(sj), Some(tj)) = (&sj, &tj) {
+                            let js = (0..sj.ncols()).flat_map(|k| (0..n).map(move |i| (i, k))).map(|(i, k)| sj[(col * n + i, k)].abs().max(tj[(i, k)].abs())).fold(0.0f64, f64::max);
                             for k in 0..sj.ncols() {
                                 for i in 0..n {
-                                    cmp("jacobian block", sj[(col * n + i, k)], tj[(i, k)], jscale);
+                                    cmp("jacobian block", sj[(col * n + i, k)], tj[(i, k)], js);
                                 }
                             }
                         } else if sj.is_some() != tj.is_some() {
@@ -856,8 +891,11 @@ fn base_families() -> Vec<(Family, usize)> {
         (Family::Exp3, 10),
         (Family::GaussDecayOff, 11),
         (Family::OLeary, 8),
+        (Family::Perm4, 10),
         (Family::GenProd { m: 2, p: 2, inc: default_inc(2, 2) }, 8),
         (Family::GenProd { m: 3, p: 2, inc: [[true, true, false], [false, true, false], [false, false, false]] }, 9),
+        // parameter 0 is shared by the first and the LAST function, the one in between does not depend on it
+        (Family::GenProd { m: 3, p: 2, inc: [[true, false, false], [false, true, false], [true, true, false]] }, 9),
     ]
 }
 
@@ -885,6 +923,7 @@ fn scenarios(prop: &str, thorough: bool) -> Vec<Scen> {
         exact: false,
         depth,
         xshift: 0.0,
+        xscale: 1.0,
     };
     let lin_cols = vec![YCol::OnModel, YCol::Off, YCol::OnPlusOff, YCol::ThreeOn];
     match prop {
@@ -907,7 +946,7 @@ fn scenarios(prop: &str, thorough: bool) -> Vec<Scen> {
                                         if !thorough {
                                             // quick: a covering slice of the product
                                             let h = fi + (prov == Prov::Built) as usize + 2 * f32_ as usize + par as usize;
-                                            if fi >= 5 || (h + ycols.len()) % 2 == 1 && !(ycols.len() == 4 && *w != WKind::None) {
+                                            if (h + ycols.len()) % 2 == 1 && !(ycols.len() == 4 && *w != WKind::None) {
                                                 continue;
                                             }
                                             if matches!(eps, EpsKind::Val(x) if x < 0.0) && fi != 1 {
@@ -940,6 +979,28 @@ fn scenarios(prop: &str, thorough: bool) -> Vec<Scen> {
                             s.alphas.truncate(4);
                             s.depth = 2;
                             v.push(s);
+                        }
+                    }
+                }
+            }
+            // absolute scale of the parameters: decay constants (and sample locations) of order 1e-17 / 1e17 (f64), 1e-9 / 1e9 (f32) -
+            // every step between alphabet entries is far below (above) any absolute tolerance on parameter changes
+            for (fam, n) in [(Family::Exp1Off, 7usize), (Family::Exp2Off, 9)] {
+                for f32_ in [false, true] {
+                    for par in [false, true] {
+                        if prop == "C11" && !par {
+                            continue;
+                        }
+                        for scale in if f32_ { [1e-9, 1e9] } else { [1e-17, 1e17] } {
+                            for (api, ycols) in [(Api::Single, vec![YCol::Noisy]), (Api::Mrhs, vec![YCol::Noisy, YCol::Off])] {
+                                if !thorough && (par != (api == Api::Mrhs)) {
+                                    continue;
+                                }
+                                let mut s = mk(&fam, n, if par { Prov::Hand } else { Prov::Built }, f32_, par, api, ycols, if par { WKind::Ramp } else { WKind::None }, EpsKind::Default);
+                                s.alphas = s.alphas.iter().filter(|a| a.iter().all(|t| *t > 0.01)).map(|a| a.iter().map(|t| t * scale).collect()).collect();
+                                s.xscale = scale;
+                                v.push(s);
+                            }
                         }
                     }
                 }
@@ -1072,6 +1133,9 @@ fn scenarios(prop: &str, thorough: bool) -> Vec<Scen> {
             sels.push(vec![YCol::OnModel, YCol::Off, YCol::Noisy, YCol::TwiceOn]);
             sels.push(vec![YCol::Noisy, YCol::Off, YCol::OnModel, YCol::Zero, YCol::DupOn]);
             // many right-hand sides (more than workers, more than any small-S special case): 33 and 70 columns cycling through the pool
+            // column magnitudes more than the exponent range of the scalar type apart (all finite, normal numbers)
+            sels.push(vec![YCol::ScaleHuge, YCol::ScaleTiny]);
+            sels.push(vec![YCol::ScaleTiny, YCol::Noisy, YCol::ScaleHuge]);
             sels.push((0..33).map(|i| pool[i % 5].clone()).collect());
             sels.push((0..70).map(|i| pool[(i * 2) % 5].clone()).collect());
             let fams: Vec<(Family, usize)> = vec![(Family::Exp1Off, 6), (Family::Exp2Off, 8), (Family::OLeary, 7), (Family::GenProd { m: 1, p: 1, inc: default_inc(1, 1) }, 5), (Family::GenProd { m: 3, p: 2, inc: [[true, true, false], [true, false, false], [false, true, false]] }, 8)];
